@@ -167,13 +167,16 @@ def pItems : Nat → List Tok → List Item → Option (List Item)
 /-- `result: chord_list` over the complete token list -/
 def parseToks (ts : List Tok) : Option (List Item) := pItems (ts.length + 1) ts []
 
-/-- `cmd/io.go:parseText`: the tree, or an error when the scanner or the parser reported one -/
-def parseText (bs : List Nat) : Except Err (List Item) :=
-  match lexBytes bs with
+/-- `cmd/io.go:parseText` on decoded runes: the tree, or an error when the scanner or the parser reported one -/
+def parseTextChars (cs : List Char) : Except Err (List Item) :=
+  match lexChars cs with
   | .hang _ => .error (.hang "lexer")
   | .err _ => .error .syntax
   | .ok ts => match parseToks ts with
     | some t => .ok t
     | none => .error .syntax
+
+/-- `cmd/io.go:parseText` on the bytes read from stdin or the file -/
+def parseText (bs : List Nat) : Except Err (List Item) := parseTextChars (decodeUtf8 bs)
 
 end Crd
